@@ -70,6 +70,11 @@ func needsChild(spec *RunSpec) bool {
 		if f.Src.Elf != nil && f.Src.Elf.InflateMiB >= 64 {
 			return true
 		}
+		for _, z := range f.Src.Zip {
+			if z.Src.Pad >= 64<<20 {
+				return true
+			}
+		}
 		// saferwall/pe sizes allocations from header fields: a mutated PE file can exhaust the
 		// memory of the process (fatal, not a panic)
 		if spec.OS == "windows" && strings.Contains(f.Src.Fix, "dotnetpe/testdata") && f.Src.HasOps() {
